@@ -10,7 +10,8 @@ LEAN_MODULES = ["Properties.C01V2"]
 THEOREMS = ["EngineModel.Properties.C01V2." + t for t in [
     "v2_C01_roundtrip", "v2_C01_reject", "v2_C01_total", "v2_C01_fixed_point", "v2_C01_second_write",
     "v2_C01_representable", "v2_C01_db_create", "v2_C01_db_update", "v2_C01_db_reject",
-    "v2_C01_table_create", "v2_C01_table_update", "v2_C01_table_second_write"]]
+    "v2_C01_table_create", "v2_C01_table_update", "v2_C01_table_second_write",
+    "v2_C01_schema_create", "v2_C01_schema_update", "v2_C01_schema_matters"]]
 ASSUMPTIONS = [
     "2.x: the Track table is modelled as a store of track_row values (tablePut: whole-second time stamps, SQL REAL "
     "for bpmAnalyzed, one-byte label prefix of the cue/loop blobs, UNIQUE(path)); the table layer itself is C18's "
@@ -39,6 +40,8 @@ def _case_script(c):
     else:
         L.append("mktrack t0 " + c["x"])
     c["write_line"] = {"update": 2, "collide": 2, "create": 1}[c["kind"]]
+    if c.get("skew"):
+        L.append("t2.skew t0")      # default grid / main cue made different from the adjusted ones: snapshot() must not notice
     L.append("snap t0")
     L.append("t2.row t0")
     return L
@@ -64,7 +67,7 @@ def gen_cases(rng, tier):
             c = rng.random()
             kind = "create" if c < 0.5 else ("update" if c < 0.93 else "collide")
             case = {"schema": sch, "store": "disk" if rng.random() < 0.15 else "mem", "kind": kind,
-                    "x": G.fmt_snapshot(x), "xd": x}
+                    "x": G.fmt_snapshot(x), "xd": x, "skew": rng.random() < 0.3}
             if kind == "update":
                 case["prior"] = _prior(rng, tier, uniq + 10 ** 6)
             if kind == "collide":
